@@ -22,6 +22,7 @@ type vfChoicePoint struct {
 	Kind string
 	N    int // number of options
 	Def  int // default option
+	Got  int // option taken
 }
 
 type vfChooser struct {
@@ -51,11 +52,12 @@ func (c *vfChooser) choose(kind string, n, def int) int {
 	c.mu.Lock()
 	defer c.mu.Unlock()
 	k := len(c.log)
-	c.log = append(c.log, vfChoicePoint{kind, n, def})
+	got := def
 	if v, ok := c.override[k]; ok && v >= 0 && v < n {
-		return v
+		got = v
 	}
-	return def
+	c.log = append(c.log, vfChoicePoint{kind, n, def, got})
+	return got
 }
 
 func (c *vfChooser) shuffle(kind string, n int, swap func(i, j int)) {
